@@ -157,6 +157,10 @@ def _gen_world(r):
         w["ns"] = max(1000, k * (w["nwindow"] - 576) + w["nwindow"] + r.choice([-1, 0, 0, 1]))
     w["extra"] = r.choice(["", "", "_x"])        # suffix of the shank folder names (init_params(extra=...))
     w["orig_chunk"] = r.choice([0.02, 0.05, 1.0])
+    # the original's metadata may disagree with the file (stale header of a crashed acquisition: fewer frames announced than
+    # present; truncated copy: more announced than present).  The reader exposes the frames present (C11); the converter
+    # must split, verify and - if asked - delete on the strength of ALL of them
+    w["meta_claim"] = r.choice([None] * 9 + ["fewer", "more"]) if kind != "split" else None
     return w
 
 
@@ -213,7 +217,12 @@ class World:
         self.nc = self.nap + 1
         self.O = world.make_data(w["data_seed"], w["ns"], w["nap"])
         self.pdir = self.root / LABEL
-        world.write_recording(self.pdir, STEM, fixture, self.O, shank_of=w["shank_of"])
+        claimed = None
+        if w.get("meta_claim") == "fewer":
+            claimed = max(1, w["ns"] - max(1, w["ns"] // 3))
+        elif w.get("meta_claim") == "more":
+            claimed = w["ns"] + max(1, w["ns"] // 4)
+        world.write_recording(self.pdir, STEM, fixture, self.O, shank_of=w["shank_of"], claimed_ns=claimed)
         self.bin = self.pdir / f"{STEM}.ap.bin"
         self.cbin = self.pdir / f"{STEM}.ap.cbin"
         self.ch = self.pdir / f"{STEM}.ap.ch"
@@ -473,6 +482,8 @@ def _exec_step(W, st, model, log, stats, bump, seed):
         bump("probes", "delete_original_without_post_check")
     if form_before == "cbin":
         bump("probes", "cbin_original")
+    if W.w.get("meta_claim"):
+        bump("probes", "original_metadata_disagrees_with_file_" + W.w["meta_claim"])
 
     # ---- S1 recoverability + S2 deletion guard (every post-state)
     ok_forms = W.orig_ok()
@@ -692,8 +703,8 @@ def shrink_candidates(plan):
                     c["steps"][i]["fault"] = {"auto": True, "rseed": 7}
                 yield c
     w = plan["world"]
-    for key, val in (("ns", 1000), ("nap", 4), ("form", "bin")):
-        if w[key] != val:
+    for key, val in (("meta_claim", None), ("ns", 1000), ("nap", 4), ("form", "bin")):
+        if w.get(key) != val:
             c = dict(plan)
             c["world"] = dict(w)
             c["world"][key] = val
